@@ -4,6 +4,11 @@ import Frp.Model.CloseGraph
 import Frp.Model.Tunnel
 import Frp.Lemmas.Limit
 import Frp.Lemmas.Layers
+import Frp.Model.Deadline
+import Frp.Model.QuicStream
+import Frp.Model.CodecPool1
+import Frp.Gen.ConnFacts
+import Frp.Props.C06
 /-
   C01 — TCP-class tunnels are byte-transparent, never cross-wired, propagate close, respect the
   bandwidth bound.  (partial: AES-CFB / snappy being lawful layers, the transports and "eventually
@@ -26,6 +31,17 @@ import Frp.Lemmas.Layers
    (7) proxy-protocol header ...................... pp_header_src, pp_header_iff, pp_header_dst
    (8) sniffed bytes replayed ..................... https_replays_all, tcpmux_passthrough_replays_all,
        tcpmux_strips_consumed, tcpmux_early_data_witness (observation)
+   (9) the vhost sniff phase leaves no deadline on a connection it hands on
+       .............................................. dl_clear_both, dl_read_only_clear_leaves_write, handle_clears_deadlines,
+       handle_closes_or_clears, handle_code_clears (tie: regenerated from vhost.go), dlHoldsOn_sound
+   (10) closing a QUIC work connection only closes the send side, never cancels what was written
+       .............................................. quic_noCancel_delivers, quic_close_delivers, quic_cancelWrite_loses,
+       quic_close_code (tie: regenerated from conn.go)
+   (11) a pooled snappy codec is never held by two live connections
+       .............................................. pool_no_sharing, pool_live_not_pooled, pool_double_put_witness,
+       pool_recycle_once_code (tie: regenerated from every caller of WithCompressionFromPool)
+   (12) closing one vhost proxy never re-routes another's connections (over C06's Router model)
+       .............................................. survivor_keeps_route, survivor_example
 -/
 namespace Frp
 namespace C01
@@ -825,5 +841,274 @@ theorem xferHoldsOn_sound (o : Obs) :
     · exact Or.inl rfl
     · exact Or.inr (h2 hc)
 
+/-! ## (9) the sniff phase leaves no deadline behind -/
+section deadline
+open Deadline
+
+/-- whatever happened before, `SetDeadline(time.Time{})` leaves neither deadline armed -/
+theorem dl_clear_both (cs : List Call) : (run (cs ++ [.both false])).cleared = true := by
+  simp [run, List.foldl_append, St.apply, St.cleared]
+
+/-- lifting ONLY the read deadline after `SetDeadline(t)` leaves the write deadline armed, whatever happened before -/
+theorem dl_read_only_clear_leaves_write (cs : List Call) :
+    run (cs ++ [.both true, .rd false]) = { rd := false, wd := true } := by
+  simp [run, List.foldl_append, St.apply]
+
+/-- `(*Muxer).handle`: a connection that is handed to the proxy's listener carries no deadline -/
+theorem handle_clears_deadlines : (run (handleCalls .handedOn)).cleared = true := by decide
+
+/-- every way `handle` can end: the connection is closed, or it is handed on with both deadlines cleared -/
+theorem handle_closes_or_clears (o : Outcome) :
+    handleCloses o = true ∨ (handleCloses o = false ∧ (run (handleCalls o)).cleared = true) := by
+  cases o <;> decide
+
+/-- the deadline calls of the REAL `handle` (regenerated from vhost.go on every run): all on the straight-line path
+    to the hand-off, and exactly the model's -/
+def handleCodeCalls : Option (List Call) :=
+  Gen.ConnFacts.muxerHandleDeadlines.mapM fun d => if d.2.2.2 = 0 then Call.ofSrc d.2.1 d.2.2.1 else none
+
+theorem handle_code_clears :
+    handleCodeCalls = some (handleCalls .handedOn) ∧ Gen.ConnFacts.muxerHandleHandOff.length = 1 := by
+  decide +kernel
+
+/-- the predicate evaluated on the calls the real socket saw up to the hand-off -/
+def dlHoldsOn (calls : List Call) : Bool := (run calls).cleared
+
+theorem dlHoldsOn_sound (calls : List Call) :
+    dlHoldsOn calls = true ↔ (run calls).rd = false ∧ (run calls).wd = false := by
+  simp [dlHoldsOn, St.cleared]
+
+end deadline
+
+/-! ## (10) closing a QUIC work connection never cancels what was written -/
+section quic
+open QuicStream
+
+theorem quic_noCancel_run : ∀ (prog : List Call) (s : Stream) (ks : List Nat), s.resetAt = none → .cancelWrite ∉ prog →
+    (runCalls s prog ks).resetAt = none ∧ (runCalls s prog ks).written = s.written ∧
+    (runCalls s prog ks).fin = (s.fin || prog.contains .close)
+  | [], s, ks, h, _ => by cases ks <;> simp [runCalls, h]
+  | c :: cs, s, ks, h, hn => by
+    have hc : c ≠ .cancelWrite := fun e => hn (by simp [e])
+    have hcs : Call.cancelWrite ∉ cs := fun e => hn (by simp [e])
+    have step : ∀ k, (s.call k c).resetAt = none ∧ (s.call k c).written = s.written ∧
+        (s.call k c).fin = (s.fin || c == .close) := by
+      intro k
+      cases c with
+      | cancelRead => simp [Stream.call, h]
+      | close => simp [Stream.call, h]
+      | cancelWrite => exact absurd rfl hc
+    cases ks with
+    | nil =>
+      obtain ⟨h1, h2, h3⟩ := step 0
+      obtain ⟨i1, i2, i3⟩ := quic_noCancel_run cs (s.call 0 c) [] h1 hcs
+      refine ⟨by simpa [runCalls] using i1, by simpa [runCalls, h2] using i2, ?_⟩
+      simp only [runCalls, i3, h3, List.contains_cons, Bool.or_assoc]
+      cases c <;> simp [show (Call.cancelRead == Call.close) = false by decide, show (Call.close == Call.cancelRead) = false by decide,
+        show (Call.cancelWrite == Call.close) = false by decide, show (Call.close == Call.cancelWrite) = false by decide]
+    | cons k ks =>
+      obtain ⟨h1, h2, h3⟩ := step k
+      obtain ⟨i1, i2, i3⟩ := quic_noCancel_run cs (s.call k c) ks h1 hcs
+      refine ⟨by simpa [runCalls] using i1, by simpa [runCalls, h2] using i2, ?_⟩
+      simp only [runCalls, i3, h3, List.contains_cons, Bool.or_assoc]
+      cases c <;> simp [show (Call.cancelRead == Call.close) = false by decide, show (Call.close == Call.cancelRead) = false by decide,
+        show (Call.cancelWrite == Call.close) = false by decide, show (Call.close == Call.cancelWrite) = false by decide]
+
+/-- ANY close program that closes the send side and never calls CancelWrite — at whatever moments its calls run, however
+    little the peer has read by then — delivers everything that was written, then a clean end-of-stream -/
+theorem quic_noCancel_delivers (prog : List Call) (w : List Nat) (ks : List Nat)
+    (hn : .cancelWrite ∉ prog) (hc : .close ∈ prog) :
+    (runCalls { written := w } prog ks).peerGets = (w, true) := by
+  obtain ⟨h1, h2, h3⟩ := quic_noCancel_run prog { written := w } ks rfl hn
+  simp only [Stream.peerGets, h1, h2, h3]
+  simp [hc]
+
+/-- `(*wrapQuicStream).Close` as it is -/
+theorem quic_close_delivers (w : List Nat) (ks : List Nat) :
+    (runCalls { written := w } wrapperClose ks).peerGets = (w, true) :=
+  quic_noCancel_delivers _ w ks (by decide) (by decide)
+
+/-- a CancelWrite that runs after the close, at a moment when the peer's application has consumed only `k` of the bytes
+    (a timer, a slow or paused reader): the peer gets `k` bytes and no clean end — the tail is lost -/
+theorem quic_cancelWrite_loses (w : List Nat) (k k1 k2 : Nat) (hk : k < w.length) :
+    (runCalls { written := w } (wrapperClose ++ [.cancelWrite]) [k1, k2, k]).peerGets = (w.take k, false) := by
+  have : ¬ w.length ≤ k := by omega
+  simp [runCalls, wrapperClose, Stream.call, Stream.peerGets, this, Nat.min_eq_left (Nat.le_of_lt hk)]
+
+/-- the calls of the REAL wrapper's Close (regenerated from conn.go on every run): exactly the model's, none deferred
+    to a timer / goroutine -/
+theorem quic_close_code :
+    Gen.ConnFacts.quicCloseCalls.mapM (fun c => if c.2 then none else Call.ofSrc c.1) = some wrapperClose := by
+  decide +kernel
+
+/-- the predicate on an observed close: the stream calls seen, what the peer got -/
+def quicHoldsOn (calls : List Call) (sent got : Nat) (eof eq : Bool) : Bool :=
+  !calls.contains .cancelWrite && calls.contains .close && got == sent && eof && eq
+
+end quic
+
+/-! ## (11) a pooled codec is never held by two live connections -/
+section pool
+open CodecPool1
+
+/-- no object is in two places (pool slots, live connections) at once, and `next` is beyond all of them -/
+def PoolInv (s : CodecPool1.St) : Prop :=
+  (s.pool ++ s.live).Nodup ∧ ∀ o ∈ s.pool ++ s.live, o < s.next
+
+theorem nodup_eraseIdx_not_mem : ∀ (l : List Nat) (i : Nat) (o : Nat), l.Nodup → l[i]? = some o → o ∉ l.eraseIdx i
+  | [], _, _, _, h => by simp at h
+  | x :: xs, 0, o, hn, h => by
+    simp at h; subst h
+    simpa using (List.nodup_cons.mp hn).1
+  | x :: xs, i + 1, o, hn, h => by
+    have hx := List.nodup_cons.mp hn
+    simp only [List.getElem?_cons_succ] at h
+    have ih := nodup_eraseIdx_not_mem xs i o hx.2 h
+    have hmem : o ∈ xs := List.mem_of_getElem? h
+    simp only [List.eraseIdx_cons_succ, List.mem_cons, not_or]
+    exact ⟨fun e => hx.1 (e ▸ hmem), ih⟩
+
+theorem poolInv_step (s : CodecPool1.St) (op : Op) (hs : PoolInv s) (h1 : ∀ i r, op = .finish i r → r ≤ 1) : PoolInv (step s op) := by
+  obtain ⟨hnd, hlt⟩ := hs
+  have hA := List.nodup_append.mp hnd
+  cases op with
+  | start pick =>
+    simp only [step]
+    split
+    · rename_i o ho
+      -- a pooled object moves to the new connection
+      have hmem : o ∈ s.pool := List.mem_of_getElem? ho
+      refine ⟨?_, ?_⟩
+      · refine List.nodup_append.mpr ⟨hA.1.sublist (List.eraseIdx_sublist _ _), ?_, ?_⟩
+        · exact List.nodup_cons.mpr ⟨fun hl => hA.2.2 o hmem o hl rfl, hA.2.1⟩
+        · intro a ha b hb
+          have ha' : a ∈ s.pool := (List.eraseIdx_sublist _ _).subset ha
+          rcases List.mem_cons.mp hb with rfl | hb
+          · intro e; subst e; exact nodup_eraseIdx_not_mem _ _ _ hA.1 ho ha
+          · exact hA.2.2 a ha' b hb
+      · intro x hx
+        rcases List.mem_append.mp hx with hx | hx
+        · exact hlt x (List.mem_append.mpr (Or.inl ((List.eraseIdx_sublist _ _).subset hx)))
+        · rcases List.mem_cons.mp hx with rfl | hx
+          · exact hlt _ (List.mem_append.mpr (Or.inl hmem))
+          · exact hlt x (List.mem_append.mpr (Or.inr hx))
+    · -- pool.New: an object nobody has
+      refine ⟨?_, ?_⟩
+      · refine List.nodup_append.mpr ⟨hA.1, ?_, ?_⟩
+        · exact List.nodup_cons.mpr ⟨fun hl => Nat.lt_irrefl _ (hlt _ (List.mem_append.mpr (Or.inr hl))), hA.2.1⟩
+        · intro a ha b hb
+          rcases List.mem_cons.mp hb with rfl | hb
+          · intro e; subst e; exact Nat.lt_irrefl _ (hlt _ (List.mem_append.mpr (Or.inl ha)))
+          · exact hA.2.2 a ha b hb
+      · intro x hx
+        rcases List.mem_append.mp hx with hx | hx
+        · exact Nat.lt_succ_of_lt (hlt x (List.mem_append.mpr (Or.inl hx)))
+        · rcases List.mem_cons.mp hx with rfl | hx
+          · exact Nat.lt_succ_self _
+          · exact Nat.lt_succ_of_lt (hlt x (List.mem_append.mpr (Or.inr hx)))
+  | finish idx r =>
+    simp only [step]
+    split
+    · rename_i o ho
+      have hmem : o ∈ s.live := List.mem_of_getElem? ho
+      have hr : r ≤ 1 := h1 idx r rfl
+      have hsub : s.live.eraseIdx idx ⊆ s.live := (List.eraseIdx_sublist _ _).subset
+      have hnotin : o ∉ s.live.eraseIdx idx := nodup_eraseIdx_not_mem _ _ _ hA.2.1 ho
+      have hnd' : (s.live.eraseIdx idx).Nodup := hA.2.1.sublist (List.eraseIdx_sublist _ _)
+      have r01 : r = 0 ∨ r = 1 := by omega
+      rcases r01 with rfl | rfl
+      · -- never recycled: the object is dropped
+        simp only [putN]
+        refine ⟨List.nodup_append.mpr ⟨hA.1, hnd', fun a ha b hb => hA.2.2 a ha b (hsub hb)⟩, ?_⟩
+        intro x hx
+        rcases List.mem_append.mp hx with hx | hx
+        · exact hlt x (List.mem_append.mpr (Or.inl hx))
+        · exact hlt x (List.mem_append.mpr (Or.inr (hsub hx)))
+      · -- recycled once: it goes back to the pool
+        simp only [putN]
+        refine ⟨List.nodup_append.mpr ⟨?_, hnd', ?_⟩, ?_⟩
+        · refine List.nodup_append.mpr ⟨hA.1, (by simp), ?_⟩
+          intro a ha b hb
+          rw [List.mem_singleton.mp hb]
+          intro e; subst e; exact hA.2.2 a ha a hmem rfl
+        · intro a ha b hb
+          rcases List.mem_append.mp ha with ha | ha
+          · exact hA.2.2 a ha b (hsub hb)
+          · rw [List.mem_singleton.mp ha]; intro e; subst e; exact hnotin hb
+        · intro x hx
+          rcases List.mem_append.mp hx with hx | hx
+          · rcases List.mem_append.mp hx with hx | hx
+            · exact hlt x (List.mem_append.mpr (Or.inl hx))
+            · rw [List.mem_singleton.mp hx]; exact hlt o (List.mem_append.mpr (Or.inr hmem))
+          · exact hlt x (List.mem_append.mpr (Or.inr (hsub hx)))
+    · exact ⟨hnd, hlt⟩
+
+theorem poolInv_run : ∀ (ops : List Op) (s : CodecPool1.St), PoolInv s → onceOnly ops = true → PoolInv (ops.foldl step s)
+  | [], s, hs, _ => hs
+  | op :: ops, s, hs, ho => by
+    have h1 : (∀ i r, op = .finish i r → r ≤ 1) ∧ onceOnly ops = true := by
+      cases op with
+      | start p => exact ⟨fun _ _ e => (by cases e), by simpa [onceOnly] using ho⟩
+      | finish i r =>
+        simp only [onceOnly, Bool.and_eq_true, decide_eq_true_eq] at ho
+        exact ⟨fun _ _ e => (by cases e; exact ho.1), ho.2⟩
+    exact poolInv_run ops (step s op) (poolInv_step s op hs h1.1) h1.2
+
+/-- for ALL histories of compressed connections starting and ending, with ANY choice the pool makes on Get: if every
+    handler runs its recycle function at most once, no two live connections ever hold the same codec object … -/
+theorem pool_no_sharing (ops : List Op) (h : onceOnly ops = true) : (run ops).live.Nodup :=
+  (List.nodup_append.mp (poolInv_run ops {} ⟨by simp, by simp⟩ h).1).2.1
+
+/-- … and no live connection's codec sits in the pool waiting to be handed to the next connection -/
+theorem pool_live_not_pooled (ops : List Op) (h : onceOnly ops = true) : ∀ o ∈ (run ops).live, o ∉ (run ops).pool :=
+  fun o ho hp => (List.nodup_append.mp (poolInv_run ops {} ⟨by simp, by simp⟩ h).1).2.2 o hp o ho rfl
+
+/-- recycling TWICE: one connection finishes, the next two get the same object -/
+theorem pool_double_put_witness : (run [.start 0, .finish 0 2, .start 0, .start 0]).live = [0, 0] := by decide
+
+/-- the REAL handlers (regenerated from every caller of WithCompressionFromPool on every run): on no path through any
+    of them does the recycle function run more than once -/
+theorem pool_recycle_once_code : Gen.ConnFacts.poolRecycleMax.all (fun f => decide (f.2 ≤ 1)) = true ∧
+    Gen.ConnFacts.poolRecycleMax.length ≥ 4 := by
+  decide +kernel
+
+end pool
+
+/-! ## (12) closing one vhost proxy never re-routes the connections of another -/
+section survivor
+open Str Router
+
+/-- a (domain, location, user) triple other than the survivor's bucket -/
+def otherBucket (host user : Str) (d : Str × Str × Str) : Prop := ¬ (toLower host = toLower d.1 ∧ user = d.2.2)
+
+/-- `Routers.Del` of routes in OTHER buckets (another domain, or the same domain under another routeByHTTPUser) — any
+    number of them, in any order — leaves the lookup of a host/user that has its own route literally unchanged: the
+    muxer still hands the connection to the same listener (so to the same proxy and backend), never to a wildcard
+    proxy that also covers the host -/
+theorem survivor_keeps_route (dels : List (Str × Str × Str)) : ∀ (R : Routers) (host path user : Str) (r : Route),
+    Router.get R host path user = some r → (∀ d ∈ dels, otherBucket host user d) →
+    Router.getVhost (dels.foldl (fun R d => Router.del R d.1 d.2.1 d.2.2) R) host path user = some r := by
+  induction dels with
+  | nil =>
+    intro R host path user r h _
+    simp [Router.getVhost, Router.levels, Router.findRouter, h]
+  | cons d ds ih =>
+    intro R host path user r h ho
+    refine ih _ host path user r ?_ (fun x hx => ho x (List.mem_cons_of_mem _ hx))
+    rw [C06.del_get_other R d.1 d.2.1 d.2.2 host path user (ho d (List.mem_cons_self))]
+    exact h
+
+/-- what the seeded cleanup did instead — dropping the whole domain entry — on the smallest table: alice's and bob's
+    routes on one domain plus a wildcard; after alice's proxy is closed bob's connections must still reach bob (1),
+    and in the model they do -/
+theorem survivor_example :
+    let a := Str.ofString "a.life.test"
+    let R := (add (add (add Router.empty a [] (Str.ofString "alice") 0).1 a [] (Str.ofString "bob") 1).1
+      (Str.ofString "*.life.test") [] [] 2).1
+    (Router.getVhost (Router.del R a [] (Str.ofString "alice")) a [] (Str.ofString "bob")).map (·.payload) = some 1 ∧
+    (Router.getVhost (Router.del R a [] (Str.ofString "alice")) a [] (Str.ofString "alice")).map (·.payload) = some 2 := by
+  decide +kernel
+
+end survivor
 end C01
 end Frp
